@@ -40,6 +40,13 @@ if __name__ == '__main__':
     with ProcessPoolExecutor(8) as ex:
         res = dict(ex.map(one, dirs))
     miss = [k for k, v in res.items() if not v or v == 'PATCH DOES NOT APPLY']
+    own_miss = []
     for k in sorted(res):
-        print(k, res[k] or 'NOT DETECTED')
+        meta = json.loads((VERIF / 'seeded' / k / 'meta.json').read_text())
+        own = isinstance(res[k], dict) and meta['breaks_property'] in res[k]
+        if not own and not meta.get('superseded'):
+            own_miss.append(k)
+        print(k, res[k] or 'NOT DETECTED', '' if own else ('(superseded)' if meta.get('superseded') else '(NOT BY ITS OWN PROPERTY)'))
     print(len(res), 'seeded changes;', len(miss), 'not detected:', miss)
+    print('not reported by the check of the property it breaks:', own_miss)
+    (VERIF / 'seeded' / 'detection.json').write_text(json.dumps(res, indent=1, sort_keys=True))
